@@ -9,7 +9,7 @@ from .common import captured, in_dir, scratch_dir
 
 ASSUMPTIONS = [
     "tomllib parses TOML; argparse's sentinel re-parse behaves as documented",
-    "_parse_config_data (section flattening, kebab->snake, unknown-key warning) is not under a deductive contract: "
+    "_parse_config_data (section flattening, kebab->snake, unknown-key warning) is not under a deductive contract (the engine has no dict model); it is checked against its specification on the finite key space by props/funcspecs.parse_config_sweep: "
     "its loops run over a symbolic dict; it is covered only by this bounded layer",
 ]
 
@@ -300,8 +300,10 @@ def bounded(tier, seed):
     finally:
         shutil.rmtree(d, ignore_errors=True)
     evals += effect_same_as_flag(violations, ["flat-snake", "sectioned-kebab", "pyproject-kebab"])
+    from . import funcspecs as FS
+    evals += FS.parse_config_sweep(violations)
     return {"evaluations": evals, "distinct_nontrivial": len(distinct), "violations": violations, "samples": samples,
-            "rule": "(also: nearest config file wins for all 9 kind pairs, adjacent or one level apart; --list-files honours the discovery keys of the config) (also, end to end on the output bytes of an option-sensitive document: each formatting key set in a config file "
+            "rule": "(also: _parse_config_data sets exactly the named field to exactly the given value for all 13 keys x {kebab, snake} x {top level, [formatting], [file-discovery], other section}, all pairs together, unknown keys warned about and ignored) (also: nearest config file wins for all 9 kind pairs, adjacent or one level apart; --list-files honours the discovery keys of the config) (also, end to end on the output bytes of an option-sensitive document: each formatting key set in a config file "
                     "gives the same output as the equivalent flag, and a different one from no setting) 13 settings x {flag given, not} x {config sets, not} x {--auto, not} (+ flag passed with its default value) "
                     "x config kind {.flowmark.toml flat snake, flowmark.toml sectioned kebab, pyproject [tool.flowmark], parent "
                     "directory with a section-less pyproject nearer}; quick rotates the kind, thorough takes all; observed at the "
